@@ -3,7 +3,9 @@
 Specs: NJ.tla, UPGMA.tla (algorithms in exact integer/rational arithmetic; TLC proves
 `Additive => Recovered` / `Ultrametric => Recovered` for every generator within the bounds and
 every tie-break), Distance.tla (pairwise count matrices; symmetry, zero diagonal, column-order
-independence, duplicate shortcut vs direct computation), NJTrees.tla (tree enumeration, rationals).
+independence, duplicate shortcut vs direct computation), DistanceCalls.tla (histories of builder / view
+calls on ONE dict / DictArray / DistanceMatrix object: the object is left unchanged and every call
+returns the spec's tree), NJTrees.tla / UPGMATrees.tla (tree enumeration, rationals, generators).
 
 spec -> code: every generator / alignment TLC explored is fed to the real entry points
 (nj, gnj, DistanceMatrix.quick_tree, app quick_tree, upgma; the *Pair calculators,
@@ -34,6 +36,7 @@ TIERS = {
         upgma=["MC_UPGMA_quick3.cfg", "MC_UPGMA_quick4.cfg", "MC_UPGMA_quick5.cfg"],
         dist=["MC_Distance_quick_all.cfg", "MC_Distance_quick_pair.cfg", "MC_Distance_quick_s4.cfg",
               "MC_Distance_quick_blocks.cfg"],
+        calls=["MC_DistanceCalls_quick.cfg"],
         orders={3: "all", 4: 3, 5: 2, 6: 2},
         sample={},
         traces=150,
@@ -44,16 +47,17 @@ TIERS = {
         upgma=["MC_UPGMA_quick3.cfg", "MC_UPGMA_quick4.cfg", "MC_UPGMA_thorough5.cfg", "MC_UPGMA_thorough6.cfg"],
         dist=["MC_Distance_thorough_all.cfg", "MC_Distance_thorough_pair.cfg", "MC_Distance_thorough_l3.cfg",
               "MC_Distance_thorough_s4.cfg", "MC_Distance_thorough_blocks.cfg"],
+        calls=["MC_DistanceCalls_thorough4.cfg", "MC_DistanceCalls_thorough5.cfg"],
         orders={3: "all", 4: "all", 5: 3, 6: 3},
         sample={"MC_NJ_thorough6.cfg": 4000, "MC_NJ_thorough6z.cfg": 1500},
         traces=1500,
     ),
 }
-SPEC_OF = {"nj": "NJ", "upgma": "UPGMA", "dist": "Distance"}
+SPEC_OF = {"nj": "NJ", "upgma": "UPGMA", "dist": "Distance", "calls": "DistanceCalls"}
 
 
 def model_jobs(conf):
-    jobs = [(kind, cfg) for kind in ("nj", "upgma", "dist") for cfg in conf[kind]]
+    jobs = [(kind, cfg) for kind in ("nj", "upgma", "dist", "calls") for cfg in conf[kind]]
     big = lambda j: ("thorough" in j[1], "6" in j[1] or "all" in j[1] or "s4" in j[1])
     jobs.sort(key=big, reverse=True)  # big models first
     return jobs
@@ -132,7 +136,16 @@ def check(run: Run):
             if not recs:
                 raise MachineryError(f"{cfg}: TLC emitted nothing")
             st = stats.setdefault(cfg, {"tlc_states": res.distinct, "tlc_wall_s": round(res.wall, 1)})
-            if kind in ("nj", "upgma"):
+            if kind == "calls":
+                recs.sort(key=lambda r: json.dumps([r["from"], r["act"]], sort_keys=True))
+                st["call_transitions"] = len(recs)
+                nontrivial += sum(bool(r["from"]["hist"]) for r in recs)
+                for i, ch in enumerate(chunks(recs, 1 + len(recs) // (NPROC * 2))):
+                    pending.append((kind, cfg, pool.apply_async(R.replay_calls, ((ch, run.seed + i, run.tier),))))
+                mid = recs[len(recs) // 2]
+                run.sample({"spec": "DistanceCalls", "cfg": cfg, "from": mid["from"], "act": mid["act"],
+                            "to_ret_kind": mid["to"]["ret"]["kind"]})
+            elif kind in ("nj", "upgma"):
                 recs, tied = dedup_tree_records(recs, cfg)
                 st["generators"] = len(recs)
                 st["generators_with_several_final_states"] = tied
@@ -166,6 +179,8 @@ def check(run: Run):
             st = stats[cfg]
             st["impl_calls"] = st.get("impl_calls", 0) + res[0]
             run.cov["traces_validated_against_impl"] += res[0]
+            if kind == "calls":
+                st["histories_not_reachable_on_the_real_object"] = st.get("histories_not_reachable_on_the_real_object", 0) + res[1]
             if kind == "dist":
                 st["pairs_compared"] = st.get("pairs_compared", 0) + res[1]
                 st["open_or_degenerate"] = st.get("open_or_degenerate", 0) + res[2]
@@ -186,7 +201,8 @@ def check(run: Run):
         "given by count matrices) enumerated exhaustively by TLC within the cfg bounds; each is run through every "
         "real entry point under several tip / column orders (evaluations = real API calls compared).  "
         "distinct_nontrivial = distinct generators with >= 4 tips (NJ) or any UPGMA generator, plus distinct "
-        "alignments with at least one observed difference."
+        "alignments with at least one observed difference, plus DistanceCalls transitions made after at least one "
+        "earlier call on the same object."
     )
     run.assumptions += [
         "numeric leaf: TLC supplies the exact integer count matrix / totals; the published closed forms (JC69, TN93 "
@@ -213,6 +229,8 @@ def _what(key):
         return "neighbour joining on an additive matrix did not return the generating tree"
     if key.startswith("UPGMA:"):
         return "UPGMA on an ultrametric matrix did not return the generating tree"
+    if key.startswith("calls:"):
+        return "a call on a distance-matrix object changed the object or did not return the spec's result"
     if key.startswith("trace:"):
         return "a recorded real NJ run is not a behaviour of NJ.tla"
     return "distance estimate differs from the published formula on TLC's exact counts"
